@@ -129,12 +129,28 @@ class BeartypeValidatorBinaryABC(BeartypeValidator, metaclass=ABCMeta):
         # innermost indentation level.
         indent_level_inner_nested = indent_level_inner + CODE_INDENT_1
 
+        # True only if the passed object satisfies this validator *OR* "None" if
+        # this validator has been short-circuited by a prior sibling validator
+        # and testing this object against this validator raises an exception.
+        # Like a short-circuited leaf validator (see
+        # BeartypeValidator.get_diagnosis()), a short-circuited compound
+        # validator was *NOT* intended to be called against this object and
+        # may thus raise arbitrary exceptions, which are silently ignored.
+        is_obj_valid = None
+        if is_shortcircuited:
+            try:
+                is_obj_valid = self.is_valid(obj)
+            except Exception:
+                pass
+        else:
+            is_obj_valid = self.is_valid(obj)
+
         # Line diagnosing this object against this parent conjunction.
         line_outer_prefix = format_diagnosis_line(
             validator_repr='(',
             indent_level_outer=indent_level_outer,
             indent_level_inner=indent_level_inner,
-            is_obj_valid=self.is_valid(obj),
+            is_obj_valid=is_obj_valid,
         )
 
         # Line diagnosing this object against this first child validator, with
